@@ -32,7 +32,7 @@ func c03Round3(c *eng.Ctx) {
 				is503 := eng.LiftPred(func(i ssa.Instruction) bool {
 					return eng.IsPlainCall(i, "k8s.io/apimachinery/pkg/api/errors.NewServiceUnavailable")
 				})
-				succs := c02NonNilSuccs(fn, isPopErr)
+				succs := nonNilSuccs(fn, isPopErr)
 				why := ""
 				if len(succs) == 0 {
 					why = "the error of Pop is never tested against nil"
